@@ -103,7 +103,8 @@ def cases(draw):
             if "args" in m:
                 call = {m["name"]: None}
                 for f in m["args"]:
-                    call[f] = draw(st.sampled_from(["rax", "%r8d", "0x10", 0, 10, "zz", "e", "%"]))
+                    # an actual may happen to be spelled like ANOTHER formal of the same macro: substitution is simultaneous
+                    call[f] = draw(st.sampled_from(["rax", "%r8d", "0x10", 0, 10, "zz", "e", "%"] + [g for g in m["args"] if g != f]))
                 factored.append(call)
                 multi = True
             elif isinstance(m["pattern"], list):
@@ -187,6 +188,82 @@ def evaluate_pair(case):
     return ev
 
 
+def _times_of(t):
+    if isinstance(t, int):
+        return t
+    if isinstance(t, dict):
+        return max(int(t.get("min", 1)), 0) or (1 if int(t.get("max", 1)) >= 1 else 0)
+    return 1
+
+
+def synth_listing(pattern, pick=0):
+    """Best-effort witness: instructions that a macro-free rule is meant to match (pick-th alternative of every $or, the
+    minimum number of repetitions, a memory operand spelled from each $deref, %rax for captures).  No claim that the rule
+    matches it - both renderings of the rule are simply run on it and must agree."""
+    def operand(p, out):
+        if isinstance(p, (str, int)):
+            s_ = str(p)
+            out.append("%rax" if s_.startswith("&") else s_)
+        elif isinstance(p, dict):
+            k = list(p)[0] if list(p)[0] != "times" or len(p) == 1 else list(p)[1]
+            if k == "$deref":
+                f = p[k]
+                def reg(v):
+                    v = str(v[0]["$or"][0] if isinstance(v, list) else v)
+                    return v if v.startswith("%") else "%" + v
+                def const(v):
+                    v = str(v[0]["$or"][0] if isinstance(v, list) else v)
+                    neg = v.startswith("-")
+                    v = v.lstrip("-")
+                    return ("-" if neg else "") + (v if v.startswith("0x") else "0x" + v)
+                a = reg(f.get("main_reg", "rax"))
+                kk = const(f["constant_offset"]) if f.get("constant_offset") not in (None, "") else ""
+                if f.get("register_multiplier") is not None:
+                    out.append(f"{kk}({a},{reg(f['register_multiplier'])},{str(f.get('constant_multiplier', 1)).replace('0x', '')})")
+                else:
+                    out.append(f"{kk}({a})")
+            elif k == "$or":
+                alts = p[k]
+                operand(alts[min(pick, len(alts) - 1)], out)
+            elif k in ("$and", "$and_any_order"):
+                for c in p[k]:
+                    operand(c, out)
+            elif k == "$not":
+                out.append("zzq")
+
+    def insts(node, out):
+        if isinstance(node, (str, int)):
+            out.append((str(node), []))
+            return
+        keys = list(node)
+        k = keys[0] if keys[0] != "times" or len(keys) == 1 else keys[1]
+        body = node[k]
+        reps = _times_of(node["times"]) if "times" in node and k != "times" else (_times_of(body["times"]) if isinstance(body, dict) and "times" in body else 1)
+        for _ in range(min(reps, 4)):
+            if k == "$or":
+                insts(body[min(pick, len(body) - 1)], out)
+            elif k in ("$and", "$and_any_order"):
+                for c in body:
+                    insts(c, out)
+            elif k == "$not":
+                out.append(("zzq", []))
+            else:
+                ops = []
+                for p_ in (body if isinstance(body, list) else []):
+                    operand(p_, ops)
+                out.append((str(k), ops))
+
+    out = []
+    for node in pattern:
+        insts(node, out)
+    L = []
+    a = 0x401000
+    for m, ops in [("nop", [])] + out + [("nop", [])]:
+        L.append((format(a, "x"), m, ops))
+        a += 3
+    return render(L)
+
+
 def evaluate(case):
     if case.get("pair"):
         return evaluate_pair(case)
@@ -231,6 +308,12 @@ def evaluate(case):
     text = render(att_view(case["listing"]))
     L2 = [list(r) for r in case["listing"]]
     variants = [text, render(att_view(L2[::-1] if len(L2) > 1 else L2)), render(att_view(L2 + L2))]
+    # witnesses synthesised from the inlined rule as a whole and from each of its items alone (an appended extra use is one item)
+    try:
+        variants += [synth_listing(inlined, 0), synth_listing(inlined, 1)]
+        singles = [{"pattern": [it], "text": synth_listing([it], 0)} for it in inlined[-3:]]
+    except Exception:  # noqa: BLE001 - the synthesiser is best effort
+        singles = []
     for t in variants:
         a = jasm_io.match(doc_f, t, mode="list", search="all", macros=paths or None)
         b = jasm_io.match(doc_i, t, mode="list", search="all")
@@ -238,4 +321,21 @@ def evaluate(case):
         if a[:2] != b[:2]:
             ev.dev("behaviour-differs", factored_result=list(a[:2])[:3], inlined_result=list(b[:2])[:3], factored_regex=rf[1][:600], inlined_regex=ri[1][:600])
             break
+    if not ev.deviations and singles:
+        # the last items of the rule (where extra uses are appended), each as a rule of its own: item q of the factored rule
+        # corresponds to item q of the inlined rule
+        nf = len(case["factored"])
+        for q in range(max(0, nf - 3), nf):
+            doc_fq = jasm_io.make_doc([case["factored"][q]], macros=case["macros_in_file"] or None)
+            doc_iq = jasm_io.make_doc([inlined[q]])
+            try:
+                t = synth_listing([inlined[q]], 0)
+            except Exception:  # noqa: BLE001
+                continue
+            a = jasm_io.match(doc_fq, t, mode="list", search="all", macros=paths or None)
+            b = jasm_io.match(doc_iq, t, mode="list", search="all")
+            ev.subcases += 2
+            if a[0] == "ok" and b[0] == "ok" and a[1] != b[1]:
+                ev.dev("behaviour-differs", item=q, factored_item=case["factored"][q], inlined_item=inlined[q], factored_result=a[1][:3], inlined_result=b[1][:3])
+                break
     return ev
